@@ -9,7 +9,8 @@ package core
 // RFC 6761 TLDs test, example, invalid, localhost and example.{com,net,org}, plus the TLDs of draft-chapin-rfc2606bis
 // that the function's own documentation names); non-strict ⇒ http and https with any host are accepted.
 // Host forms whose nature is debatable (IPv4 shorthand such as 127.1 or 0x7f.0.0.1, octets with leading zeros, public
-// names with a trailing dot, single-label intranet names) are generated and counted but not judged.
+// names with a trailing dot, single-label intranet names) are generated and counted but not judged. A trailing dot on a
+// RESERVED name or an IPv4 literal (https://localhost. , https://127.0.0.1.) is judged: it still names the same host.
 
 import (
 	"fmt"
@@ -151,8 +152,9 @@ func c20GenURL(t *rapid.T) c20URLCase {
 	case "empty":
 		c.Host = ""
 	}
-	if strings.HasPrefix(c.HostKind, "dns") || c.HostKind == "bare-reserved" || c.HostKind == "single-label" {
-		c.Dot = rapid.IntRange(0, 4).Draw(t, "dot") == 0
+	// a trailing dot (the root label) does not change what a host names: reserved names and IPv4 literals stay what they are
+	if strings.HasPrefix(c.HostKind, "dns") || c.HostKind == "bare-reserved" || c.HostKind == "single-label" || c.HostKind == "ip4" {
+		c.Dot = rapid.IntRange(0, 3).Draw(t, "dot") == 0
 	}
 	if rapid.IntRange(0, 3).Draw(t, "hasuser") == 0 {
 		c.User = rapid.SampledFrom([]string{"user", "user:pass", "localhost", "nuts.nl", "example.com:443", "192.0.2.1", "https%3A%2F%2Fnuts.nl", "a.test", ":"}).Draw(t, "user")
@@ -193,17 +195,24 @@ func c20Reference(c c20URLCase, strict bool) (c20Expect, string) {
 	if scheme != "https" {
 		return c20MustReject, "not-https"
 	}
+	dot := ""
+	if c.Dot {
+		dot = "-trailing-dot"
+	}
 	switch c.HostKind {
 	case "ip4":
+		if c.Dot {
+			return c20MustReject, "ip4-trailing-dot"
+		}
 		return c20MustReject, "ip4"
 	case "ip6", "ip6-mapped", "ip6-zone":
 		return c20MustReject, c.HostKind
 	case "dns-reserved-tld", "bare-reserved":
-		return c20MustReject, "reserved-tld"
+		return c20MustReject, "reserved-tld" + dot
 	case "dns-reserved-2ld":
-		return c20MustReject, "reserved-example-domain"
+		return c20MustReject, "reserved-example-domain" + dot
 	case "dns-draft-tld":
-		return c20MustReject, "reserved-draft-tld"
+		return c20MustReject, "reserved-draft-tld" + dot
 	case "empty":
 		return c20MustReject, "empty-host"
 	case "dns-public":
